@@ -11,6 +11,10 @@
 //!   c08.kw              exhaustively every keyword of Table A.1 with generated well-formed operands
 //!   c08.kw.outside      every keyword with too few / too many / wrong operands
 //!   c08.inline          where inline image data ends: bytes after `ID` → real `parse_ops` vs Model/ContentInline
+//!   c08.bytes.ser       the same op sequences → real `serialize_ops` BYTES vs Model/ContentBytes (byte-exact)
+//!   c08.bytes.parse     bytes (the writer's output; token sequences in random layouts: any white-space, comments,
+//!                       omitted separators, `#XX` names, octal string escapes) → real `parse_ops` vs the byte-level loop
+//!   c08.bytes.*.outside non-finite reals / ill-formed statements and damaged bytes (drift only)
 //!   c08.spec            the harness' copy of Table A.1 vs Spec/OperatorTable.lean (every keyword)
 //! Oracles (the real library against the property itself):
 //!   c08.roundtrip       parse_ops(serialize_ops(ops)) == ops with numeric equality on reals
@@ -510,4 +514,5 @@ fn stream_inline(driver: &Driver, ctx: &Ctx, seed: u64, n: u64) -> Stream {
     st
 }
 
+include!("c08_bytes.rs");
 include!("c08_oracles.rs");
